@@ -189,12 +189,11 @@ theorem C01_roundtrip_total (m : Msg) (hwf : WFMsg m) (hfit : FitAll m) (hf : m.
   exact ⟨pks, msgs, h, h1, h2, h3, h4, h5⟩
 
 /-- **Rejection.**  A name with a label of more than 63 bytes makes `write_name` raise
-`NamePartTooLongException` — nothing else, and nothing is written — for every names table the builder
-can hold (keys no longer than the name have short labels only: the builder registers suffixes of names it
-has started to write, longest first).  A question with such a name is rejected likewise.
-(The statement for a whole message — "`packets m` is `NamePartTooLongException` iff some label is too
-long" — is not proved: it needs progress of the packet loop up to the offending entry; the differential
-covers it, `harness/c01.py` signature `…:label-…-encodes-undecodable`.) -/
+`NamePartTooLongException` — nothing else, and nothing is written — for every names table whose keys no
+longer than the name have short labels only (hypothesis `hnames`; that every table the builder can hold
+satisfies it is `ShortKeys`, an invariant proved below: `C01_table_short_keys`, `C01_reach_*`).
+Records, every reachable state and whole messages follow: `C01_record_rejected`, `C01_question_rejected_reachable`,
+`C01_message_rejected`, `C01_rejected_iff_partial`. -/
 theorem C01_name_rejected (n : WName) (size : Nat) (names : Names) (hbad : ∃ l ∈ n, 63 < l.length)
     (hnames : ∀ p ∈ names, p.1.length ≤ n.length → ∀ l ∈ p.1, l.length ≤ 63) :
     writeName size names n = .error .namePartTooLong :=
